@@ -30,7 +30,9 @@ class C11:
             "all sizes in the thorough tier) of short 2-3 message sequences. Random: sequences of 1-8 messages, header "
             "lines 1 B - 20 KiB, bodies 0 - 60 KiB (random bytes, SIP-looking text, line-end soup), CRLF/LF/mixed "
             "endings, 0-3 CRLF keep-alives, compact and mixed-case Content-Length; 0-40 random cuts, every-k-bytes "
-            "segmentation down to 1-byte segments. Non-trivial = at least one message decoded from at least two "
+            "segmentation down to 1-byte segments. Receive loop: the REAL TCPServerTransport.receiveMessage goroutine over a scripted "
+            "net.Conn (1-8 messages in one segment, every-k-bytes, random cuts), its envelopes queued by the handler and read after the "
+            "connection ended (set and order of the delivered messages). Non-trivial = at least one message decoded from at least two "
             "segments; distinct by content hash.")
     trusted = ["the scripted reader stands for net.Conn: one Read returns at most the rest of the current segment and never (0, nil)",
                "bufio.Reader (Go standard library) is modelled in Bufio.v, not verified; this run validates the model against the real one"]
@@ -87,6 +89,27 @@ class C11:
                 kind = "random-cuts"
             cases.append(G.stream_case("rxstream", "r%d" % i, size, chunks,
                                        {"kind": kind, "len": L, "msgs": len(ms), "size": size,
+                                        "maxline": max(len(raw) for m in ms for _, _, raw in m.headers)}))
+        # ---- the receive loop itself: the REAL TCPServerTransport.receiveMessage reading a scripted connection, its messages
+        #      QUEUED by the handler (as Proxy.HandleRawMessage does) and read only when the connection has ended: same bytes,
+        #      same messages, in order, however they were segmented and however far the consumer lags behind
+        nw = 300 if quick else 8000
+        for i in range(nw):
+            ms = [G.gen_msg(rng, max_line=200, max_body=600) for _ in range(rng.randrange(1, 9))]
+            data = b"".join(m.encode() for m in ms)
+            if rng.random() < 0.1:
+                data += b"\r\n" * rng.randrange(1, 4)
+            L = len(data)
+            r = rng.random()
+            if r < 0.25:
+                chunks, kind = [data], "wire-one-segment"
+            elif r < 0.5:
+                k = rng.choice([1, 3, 17, 100, 1460, 4096])
+                chunks, kind = ([data[j:j + k] for j in range(0, L, k)] if L // k < 3000 else [data]), "wire-every-%d" % k
+            else:
+                chunks, kind = G.segment(data, G.random_cuts(rng, L, rng.randrange(0, 21))), "wire-random-cuts"
+            cases.append(G.stream_case("rxtcpwire", "w%d" % i, 4096, chunks,
+                                       {"kind": kind, "len": L, "msgs": len(ms), "size": 4096,
                                         "maxline": max(len(raw) for m in ms for _, _, raw in m.headers)}))
         corp = lib.load_corpus("C11")
         cases = corp + cases
